@@ -1,7 +1,9 @@
-From Mds Require Import Common.ExtractBase Gen.SliceIdx Slice.SliceUtilModel Slice.SliceUtilSpec.
+From Mds Require Import Common.ExtractBase Gen.SliceIdx Slice.SliceUtilModel Slice.SliceUtilSpec Slice.SliceUtilExtraModel.
 Require Extraction.
 Require Import ExtrOcamlBasic.
 Extraction "sliceutil_model.ml" SliceUtilModel.partition SliceUtilModel.rotate SliceUtilModel.rotate_impl
   SliceUtilModel.chunks SliceUtilModel.batches SliceUtilModel.head SliceUtilModel.tail SliceUtilModel.stripe
   SliceUtilModel.at_ SliceUtilModel.ptr_at SliceUtilModel.can_overwrite SliceUtilModel.window
-  SliceUtilSpec.rotate_list SliceUtilSpec.batch_lens SliceUtilSpec.stripe_spec SliceUtilSpec.at_pos base_types.
+  SliceUtilSpec.rotate_list SliceUtilSpec.batch_lens SliceUtilSpec.stripe_spec SliceUtilSpec.at_pos
+  SliceUtilExtraModel.zero_view SliceUtilExtraModel.select_loop SliceUtilExtraModel.matching_loop
+  SliceUtilExtraModel.map_keys SliceUtilExtraModel.take_consumer base_types.
